@@ -65,8 +65,9 @@ def _(self, m, cn_solution):
     modifies()
 
 
-@contract("aldy.coverage.Coverage.average_coverage")
+@contract("aldy.coverage.Coverage.average_coverage", pure=True)
 def _(self):
+    returns("float")
     # C19: total depth over covered positions / (number of covered positions + 0.1); 0 for an empty table
     ensures(result * (len(self._coverage) + 0.1) == sum(depth(self, p) for p in self._coverage))
     modifies()
